@@ -41,7 +41,7 @@ SUP = str.maketrans("0123456789-", "⁰¹²³⁴⁵⁶⁷⁸⁹⁻")
 def tasks(tier, seed):
     t = [{"sub": "small", "shard": i, "nshard": 12} for i in range(12)]
     t += [{"sub": "large", "nit": nit, "shard": i} for i, nit in enumerate(["float", "Fraction", "Decimal", "float"])]
-    t += [{"sub": "malformed", "shard": 0}, {"sub": "noexec", "shard": 0}, {"sub": "words", "shard": 0}, {"sub": "uncert", "shard": 0}]
+    t += [{"sub": "malformed", "shard": 0}, {"sub": "noexec", "shard": 0}, {"sub": "words", "shard": 0}, {"sub": "uncert", "shard": 0}, {"sub": "alias", "shard": 0}]
     if tier == "thorough" or os.environ.get("VERIF_FUZZ"):
         # coverage-guided campaigns: half of the shards start from an empty corpus, half from a few valid expressions
         t += [{"sub": "fuzz", "shard": i, "corpus": "empty" if i % 2 else "seeded"} for i in range(8)]
@@ -566,6 +566,11 @@ def run_malformed(task, tier, seed, col):
             muts.append(("trailing_operator", text + " " + op + " "))
         for op in ("*", "/", "**", "//"):
             muts.append(("leading_operator", op + text))
+        # a binary operator left dangling directly before a closing parenthesis
+        for i, ch in enumerate(text):
+            if ch == ")" and text[:i].rstrip()[-1:] not in "(*/+-^":
+                for op in ("+", "-", "*", "/", "**", " - ", " +"):
+                    muts.append(("dangling_before_close", text[:i] + op + text[i:]))
         muts.append(("extra_open", "(" + text))
         muts.append(("extra_close", text + ")"))
         for mut, s in muts:
@@ -651,7 +656,61 @@ def run_noexec(task, tier, seed, col):
     hyp_search(col, strat.map(lambda s: {"s": s}), lambda c: case_noexec(c, col), max_examples=2500 if tier == "quick" else 60000, seed=seed * 107, shrink=True)
 
 
+# ------------------------------------------------------------------------------------- results are independent objects
+
+ALIAS_EXPRS = ["kilometer", "degC", "meter", "3 kilometer", "2 meter", "kg * m / s**2", "inch", "1.5 hour", "millisecond", "newton"]
+
+
+_ALIAS_REG = {}
+
+
+def case_alias(case, col=None):
+    """What one parse returns can be changed in place without changing what the next parse of the same (or a related) string returns."""
+    import numpy as np
+
+    import pint
+
+    text, mut, force = case["text"], case["mut"], case["force"]
+    for k in (("s", force), ("r", force)):
+        if k not in _ALIAS_REG:
+            _ALIAS_REG[k] = pint.UnitRegistry(force_ndarray=True) if force else pint.UnitRegistry()
+    ureg, fresh = _ALIAS_REG[("s", force)], _ALIAS_REG[("r", force)]  # subject (its results get mutated) and reference (never mutated)
+    if col is not None:
+        col.case(("al", text, mut, force), True, sample=case, cls=mut)
+
+    def snap(reg, r):
+        s_, v = attempt(reg.parse_expression, r)
+        if s_ == "err":
+            return ("err", type(v).__name__)
+        return (np.asarray(getattr(v, "magnitude", v)).tolist(), dict(v._units) if hasattr(v, "_units") else None)
+
+    last = text.split()[-1]
+    related = [text] + (["3 " + last, last] if last.isidentifier() else [])
+    s_, first = attempt(ureg.parse_expression, text)
+    if s_ == "ok" and hasattr(first, "_units"):
+        attempt({"ito_base": lambda: first.ito_base_units(), "ito_root": lambda: first.ito_root_units(), "imul": lambda: first.__imul__(3), "ito_reduced": lambda: first.ito_reduced_units(),
+                 "idiv": lambda: first.__itruediv__(4)}[mut])
+    for r in related:
+        got, want = snap(ureg, r), snap(fresh, r)
+        if got != want:
+            raise Violation(f"parse_result_shared_with_earlier_result:{mut}", f"after parse_expression({text!r}) and {mut} on the result, parse_expression({r!r}) -> {got}, an untouched registry gives {want}")
+    if last.isidentifier():
+        (s1, u1), (s2, u2) = attempt(ureg.parse_units, last), attempt(fresh.parse_units, last)
+        if s1 != s2 or (s1 == "ok" and dict(u1._units) != dict(u2._units)):
+            raise Violation("parse_units_changed_by_earlier_result", f"{text!r} {mut}")
+
+
+def run_alias(task, tier, seed, col):
+    for text in ALIAS_EXPRS:
+        for mut in ("ito_base", "ito_root", "imul", "ito_reduced", "idiv"):
+            for force in (False, True):
+                col.run_case(lambda c: case_alias(c, col), {"text": text, "mut": mut, "force": force})
+    col.exhaustive = True
+
+
 def run_task(task, tier, seed, col):
+    if task["sub"] == "alias":
+        return run_alias(task, tier, seed, col)
     {"small": run_small, "large": run_large, "malformed": run_malformed, "noexec": run_noexec, "words": run_words, "uncert": run_uncert, "fuzz": run_fuzz}[task["sub"]](task, tier, seed, col)
 
 
@@ -660,6 +719,8 @@ def _tup(x):
 
 
 def replay(sub, case):
+    if sub == "alias":
+        return case_alias(case)
     if "tree" in case:
         case = dict(case)
         case["tree"] = _tup(case["tree"])
@@ -756,7 +817,7 @@ def case_fuzz(case, col=None):
             raise Violation("fuzz:wrong_value", f"{t!r} -> {show_res(got)}, Python's reading {tree} gives {show_res(want)}")
     elif t and set(t) <= _PLAIN_ALPHABET:
         unbalanced = t.count("(") != t.count(")")
-        dangling = t.rstrip(" \t")[-1] in "*/+-" or t[0] in "*/"
+        dangling = t.rstrip(" \t")[-1] in "*/+-" or t[0] in "*/" or re.search(r"[*/+\-][ \t]*\)", t) is not None
         if unbalanced or dangling:
             info["structure"] = True
             got = _outcome(lambda: ureg.parse_expression(t))
